@@ -15,7 +15,12 @@ config):
                advanced config; and, on small networks, one design + propagation gives the same receiver figures
   aliases      every name of an Edfa / Transceiver / mode declared with `other_name` gives an entry equal to the
                primary one that reports that very name
-Signatures carry the document kind and the JSON path (list positions as [*]) of the first difference.
+  key-order    (own sub-check, child process) a legacy document whose keyed-list entry has its key member written last
+               is still a valid document: it must convert (the converters re-order three lists only; libyang is run
+               in strict/ordered mode and rejects the others, sometimes taking the interpreter down)
+Signatures carry the document kind and the JSON path of each difference (entries of keyed lists as [*], positions of
+plain lists as [0] / [1+], uid-keyed dict members as {*}); every differing path of a case is reported, so one recorded
+finding does not hide another one in the same document.
 """
 import copy
 import json
